@@ -121,3 +121,50 @@ pub fn c17_q_twin_thin() {
     kani::assume(a != b);
     check!(last != b, "twin.must_fail");
 }
+
+/// thick lines with SYMBOLIC end points in [0,3]^2 and width 1..=3: no pixel twice, contains the thin
+/// line, width 1 == points(), corridor and end bounds, inside the styled bounding box
+#[cfg(feature = "thorough")]
+#[cfg_attr(kani, kani::proof, kani::unwind(30))]
+pub fn c02_c17_t_thick_sym_b2() {
+    let a = Point::new(small_u(2) as i32, small_u(2) as i32);
+    let b = Point::new(small_u(2) as i32, small_u(2) as i32);
+    let w = 1 + upto(2);
+    let q = Point::new(small_u(3) as i32 - 2, small_u(3) as i32 - 2);
+    note!("q", q);
+    thick_claims_light(a, b, w, q);
+}
+
+/// thick_claims without the extra draw() rendering (one pixels() loop + one points() loop)
+pub fn thick_claims_light(a: Point, b: Point, w: u32, q: Point) {
+    note!("line", (a, b)); note!("width", w);
+    let line = Line::new(a, b);
+    let styled = line.into_styled(PrimitiveStyle::with_stroke(Gray8::new(1), w));
+    let mut writes = 0u32;
+    for Pixel(p, _) in styled.pixels() {
+        if p == q { writes += 1; }
+    }
+    let mut thin = false;
+    for p in line.points() {
+        if p == q { thin = true; }
+    }
+    check!(writes <= 1, "C17.no_duplicate");
+    if thin { check!(writes == 1, "C17.contains_thin"); }
+    if w == 1 { check!((writes == 1) == thin, "C17.w1_eq_points"); }
+    if writes > 0 {
+        let dx = b.x as i64 - a.x as i64;
+        let dy = b.y as i64 - a.y as i64;
+        let len2 = dx * dx + dy * dy;
+        let rx = q.x as i64 - a.x as i64;
+        let ry = q.y as i64 - a.y as i64;
+        if len2 > 0 {
+            let cross = rx * dy - ry * dx;
+            check!(4 * cross * cross <= (w as i64 + 5) * (w as i64 + 5) * len2, "C17.corridor");
+            let t = rx * dx + ry * dy;
+            if t < 0 { check!(t * t <= len2, "C17.ends"); }
+            if t > len2 { check!((t - len2) * (t - len2) <= len2, "C17.ends"); }
+        }
+        check!(in_rect(&styled.bounding_box(), q), "C02.inside_bbox");
+    }
+    reach!(writes == 1 && !thin, "reach.beside_thin_line");
+}
